@@ -28,9 +28,26 @@ MInit == l = 1 /\ MarkInit
 \* e.pings[i]: at = when the session handed the ping to its transport (= when the peer saw it,
 \* unless the transport held it for h), o = what became of it; e.pingable = the protocol
 \* version the session negotiated has ping
-Obs(e) == [T |-> e.T, I |-> e.I, start |-> e.start, pings |-> e.pings, pingable |-> e.pingable,
+\*
+\* Transport dimension (e.tr # "": KeepAlive.tla Part 1b, cases of KeepAliveTr): the harness reports, per
+\* ping, the CLASS the scripted peer played (p.cls); what that class is for the property is the model's
+\* table.  A ping beyond the script is left unanswered: a time-out if the session then lasted for at least
+\* a ping timeout, unresolved otherwise.
+SessEnd0(e) == IF e.closed >= 0 THEN e.closed ELSE e.userClose
+POut(e, p) == IF e.tr = "" THEN p.o
+              ELSE IF p.cls = "unscripted"
+                   THEN (IF SessEnd0(e) >= 0 /\ SessEnd0(e) - p.at >= KA!PingTimeout(e.I) THEN "t" ELSE "u")
+              ELSE KA!VerdictOf(e.tr, p.cls)
+Pings(e) == [i \in 1..Len(e.pings) |-> [at |-> e.pings[i].at, o |-> POut(e, e.pings[i]), h |-> e.pings[i].h]]
+\* A session that ended because its connection was reported dead (neither keep-alive nor the owner closed
+\* it) leaves a keep-alive loop that can only find out by its own pings failing - which, by the property,
+\* it has after the threshold's intervals and a ping timeout: the census that applies is the one taken then.
+DeadEnd(e) == /\ e.tr # "" /\ e.closed >= 0
+              /\ LET P == KA!Before(Pings(e), e.closed) IN Len(P) > 0 /\ P[Len(P)].o = "d"
+Obs(e) == [T |-> e.T, I |-> e.I, start |-> e.start, pings |-> Pings(e), pingable |-> e.pingable,
            attempts |-> e.attempts,
-           closed |-> e.closed, userClose |-> e.userClose, kaEarly |-> e.kaEarly, kaAlive |-> e.kaAlive, left |-> e.left, exit |-> e.exit]
+           closed |-> e.closed, userClose |-> e.userClose, kaEarly |-> e.kaEarly,
+           kaAlive |-> (IF DeadEnd(e) THEN e.kaLate ELSE e.kaAlive), left |-> e.left, exit |-> e.exit]
 
 \* code-shaped expectation (strict): exported by TLC in units of I / e.exp.unit
 U(e) == e.I \div e.exp.unit
@@ -39,12 +56,16 @@ Strict(e) ==
   /\ Len(e.pings) = e.exp.nping
   /\ \A i \in 1..Len(e.pings) :
         /\ i <= Len(e.exp.ticks) => e.pings[i].at = e.start + e.exp.ticks[i] * U(e)
-        /\ e.pings[i].o = (IF i <= Len(e.pattern) THEN KA!ObsOutcome(e.pattern[i]) ELSE "u")
+        /\ e.tr = "" => e.pings[i].o = (IF i <= Len(e.pattern) THEN KA!ObsOutcome(e.pattern[i]) ELSE "u")
+        /\ e.tr # "" => (i <= Len(e.cls) /\ e.pings[i].cls = e.cls[i])     \* the peer played the script
         /\ i <= Len(e.exp.holds) => e.pings[i].h = e.exp.holds[i] * U(e)
         /\ e.level = "func" => e.pings[i].dl = KA!PingTimeout(e.I)
-  /\ e.closed = (IF e.exp.closeAt < 0 THEN -1 ELSE e.start + e.exp.closeAt * U(e))
+  \* (e.exp.dlag: a server session that its client ends with DELETE while a ping is outstanding is over when
+  \* that ping is - KeepAliveTr!DLag)
+  /\ e.closed = (IF e.exp.closeAt < 0 THEN -1 ELSE e.start + (e.exp.closeAt + e.exp.dlag) * U(e))
   /\ e.start = 0
-  /\ Len(e.attempts) = Len(e.pings)      \* every attempt reaches the peer
+  \* every attempt reaches the peer (on a connection that was reported dead the loop's remaining attempts cannot)
+  /\ Len(e.attempts) = Len(e.pings) \/ (DeadEnd(e) /\ Len(e.attempts) > Len(e.pings))
   /\ \A i \in 1..Len(e.attempts) : i <= Len(e.pings) => e.attempts[i] = e.pings[i].at
   /\ e.ended >= 0
   \* the environment was as the case says: handshake completed (unless the session was over
